@@ -145,6 +145,25 @@ def invSpec (n : Nat) (out : Array String) : String :=
           | _, _ => false) ]
   | _ => fail "unreadable-result"
 
+/-! ### per-input validation of the hypothesis `TilesJunkFaces` of `merge_tiles_preserves_axioms`
+
+The invariant theorems for `merge_tiles` / `merge_all` rest on one unproved fact about
+`inner_edges`: the 3-edges it declares inner come in whole faces (the junk list is closed under s0
+and s1).  It is re-established here for every explored input on which the model's `inner_edges`
+runs, so that for these inputs the theorem's hypothesis is a checked fact. -/
+
+def innerWallsSpec (ds : DSetData) : String :=
+  match asDSym ds with
+  | .ok sym =>
+    (match FG.innerEdges sym with
+     | .ok inner =>
+       let junk := tilesJunk ds inner
+       let mark := markOf ds.size junk
+       check [("hypothesis-inner-walls-are-whole-faces",
+         junk.all fun x => mark.getD (ds.opU 0 x) false && mark.getD (ds.opU 1 x) false)]
+     | _ => ok)
+  | _ => ok
+
 /-! ### handler -/
 
 def dsOnly (inp : Array String) : Option DSetData :=
@@ -190,7 +209,7 @@ def handler : Handler := fun op inp out =>
      | _ => bad)
   | "merge_tiles" =>
     (match dsOnly inp with
-     | some s => (encStep (mergeTiles (.dset s)), ok)
+     | some s => (encStep (mergeTiles (.dset s)), innerWallsSpec s)
      | none => bad)
   | "merge_tiles_g" =>
     (match run (do let s ← P.dset; let inner ← P.pairs; let fin ← P.atEnd; pure (s, inner, fin)) inp with
